@@ -155,10 +155,40 @@ async def sk_rename_inbox_then_arrivals(hp, w, rnd, ctx):
     await w.observe()
 
 
+async def sk_pop3_quit_after_imap_expunge(hp, w, rnd, ctx):
+    """A POP3 session marks messages; an IMAP session expunges a lower-numbered
+    one in between; QUIT then removes exactly the marked messages (the ones that
+    had those numbers when the POP3 session began) and nothing else."""
+    a = w.session()
+    for i in range(6):
+        await w.op_append(a, "INBOX", flags=rnd.choice([None, ["\\Seen"]]))
+    await w.op_select(a, "INBOX")
+    await w.observe()
+    b = w.boxes["INBOX"]
+    p = w.rig.pop3("P")
+    await p.cmd("STAT")
+    await p.cmd("UIDL")
+    snapshot = list(b.msgs)
+    await w.op_store(a, [2], "add", ["\\Deleted"])
+    await w.op_expunge(a)
+    await w.observe()
+    marked = [snapshot[3], snapshot[4]]  # POP3 numbers 4 and 5
+    for n in (4, 5):
+        rep = await p.cmd(f"DELE {n}")
+        w.note(f"POP3: DELE {n} -> {rep.line if rep else None}")
+    rep = await p.cmd("QUIT")
+    w.note(f"POP3: QUIT -> {rep.line if rep else None}")
+    await w.rig.settle()
+    w._remove(b, [m for m in marked if m in b.msgs], None)
+    w.stats["pop3_quit_scenarios"] += 1
+    await w.op_noop(a)
+    await w.observe()
+
+
 class C05(HistProp):
     prop = PROP
     names = ["INBOX", "other"]
-    skeletons = [sk_uid_expunge_sparse, sk_examine_session, sk_copy_same_mailbox_and_missing, sk_placeholder_destination, sk_move_naming_nothing, sk_rename_inbox_then_arrivals]
+    skeletons = [sk_uid_expunge_sparse, sk_examine_session, sk_copy_same_mailbox_and_missing, sk_placeholder_destination, sk_move_naming_nothing, sk_rename_inbox_then_arrivals, sk_pop3_quit_after_imap_expunge]
     weights = {"append": 9, "store_del": 10, "store": 4, "uid_store": 3, "expunge": 8, "uid_expunge": 7, "copy": 7, "uid_copy": 5, "move": 6, "uid_move": 4,
                "close": 4, "examine": 4, "fetch_body": 3, "deliver": 2, "noop": 4, "idle": 1}
     opts = {"examine_prob": 0.3}
